@@ -9,6 +9,11 @@ CLAIMS={
    design="§3 C17, §2 R3",
    note="Trusted: go/types+go/ssa of x/tools v0.29.0; cosmos-sdk verifies that the tx is signed by the proto signer field; frozen class table tables/c17_classes.json (56 non-governance handlers, each with a reason). State unchanged on rejection is decided as: no state-changing site is reachable without the guard.",
    technique="static analysis: must-hold guard facts (forward dataflow over go/ssa CFG) + backward provenance slices + who-may-write summaries over a repo-CHA call graph"),
+ "C10":dict(
+   text="Guard dominance decided on every path: every call site of perpetual ForceCloseLong/ForceCloseShort and leveragelp ForceCloseLong (resolved through the call graph) lies in one of five frozen guarded functions or the owner-keyed close, and is reached only under the matching comparison — health <= safety factor (health produced by Get*Health, bound by GetSafetyFactor/Params.SafetyFactor), stop-loss price <= stop (long, LP) / >= (short), take-profit >= (long) / <= (short) — using must-hold facts and, where the long/short discriminator re-merges, enumeration of all acyclic paths with contradiction pruning; comparison operators are normalised so a weakened or flipped comparison fails. Every state-changing callee in the third-party entry functions is frozen (accrued interest/funding, health refresh, guarded closes). Every success exit of ProcessOpen / OpenConsolidate / ProcessOpenLong carries the strict fact health > safety factor. Necessary structural condition, not a proof that health is the right number.",
+   design="§3 C10, §2 R3/R4",
+   note="Trusted: go/types+go/ssa; frozen tables c10_sites.json, c10_entries.json; owner path decided by C17. Path enumeration bound 4096 acyclic paths (exceeding it is reported as undecided = failure).",
+   technique="static analysis: must-hold guard facts + bounded acyclic path enumeration with contradiction pruning over go/ssa; who-may-call over repo-CHA call graph"),
 }
 NA={}
 checks=[]
